@@ -1,6 +1,6 @@
 HARNESSES += C15_mpole
 C15_mpole_XTP   := 1
-C15_mpole_SRCS  := xtp/src/libxtp/eeinteractor.cc xtp/src/libxtp/staticsite.cc xtp/src/libxtp/polarsite.cc
+C15_mpole_SRCS  := xtp/src/libxtp/eeinteractor.cc xtp/src/libxtp/staticsite.cc xtp/src/libxtp/polarsite.cc xtp/src/libxtp/classicalsegment.cc xtp/src/libxtp/checkpoint.cc
 C15_mpole_FLAGS := -fno-access-control
 C15_mpole_LIBS  := $(LIBTOOLS) -L/usr/lib/x86_64-linux-gnu/hdf5/serial -lhdf5_cpp -lhdf5
 C15_mpole_DEPS  := $(TOOLSSO)
